@@ -1,8 +1,8 @@
 package main
 
 import (
-	"strconv"
 	"fmt"
+	"strconv"
 	"strings"
 
 	"github.com/tidwall/geojson"
@@ -220,6 +220,52 @@ func c01Object(s *exact.Shape, t Xf, probes []exact.P, fprobes []geometry.Point,
 	}
 }
 
+// c01Parsed reads the closed ring as a plain two-ordinate Polygon document
+// under ParseOptions.AllowRects (on the geometry and on a Feature around it):
+// whatever kind of object Parse chooses to build for it, membership is that of
+// the ring.
+func parsedAllowRects(s *exact.Shape) []geojson.Object {
+	var sb strings.Builder
+	sb.WriteString(`{"type":"Polygon","coordinates":[[`)
+	for i, p := range s.Ext {
+		if i > 0 {
+			sb.WriteByte(',')
+		}
+		q := ident.pt(p)
+		sb.WriteString("[" + strconv.FormatFloat(q.X, 'g', -1, 64) + "," + strconv.FormatFloat(q.Y, 'g', -1, 64) + "]")
+	}
+	sb.WriteString(`]]}`)
+	g := sb.String()
+	var out []geojson.Object
+	for _, d := range []string{g, `{"type":"Feature","geometry":` + g + `,"properties":null}`} {
+		obj, err := geojson.Parse(d, &geojson.ParseOptions{AllowRects: true, IndexGeometry: 64, IndexChildren: 64})
+		if err != nil {
+			panic("harness: " + err.Error() + ": " + d)
+		}
+		out = append(out, obj)
+	}
+	return out
+}
+
+func c01Parsed(s *exact.Shape, probes []exact.P, fprobes []geometry.Point, w *rt.Worker) {
+	for di, obj := range parsedAllowRects(s) {
+		w.States++
+		for j, p := range probes {
+			want := s.Member(p.R())
+			fp := fprobes[j]
+			w.Evals += 13
+			got, same := objAnswers(obj, fp)
+			if !same || obj.Contains(geojson.NewPoint(fp)) != want {
+				di := di
+				w.Fail("object-parsed-allowrects", func() (rt.Case, string, string) {
+					return rt.Case{Kind: "member", Op: fmt.Sprintf("parsed%d", di), A: descShape(s, ident), B: ptG(fp), Cfg: "allowrects", X: ident.x()},
+						fmt.Sprintf("all 13 object-level answers = %v", want), got
+				})
+			}
+		}
+	}
+}
+
 // curated exteriors on the 5x5 lattice (half-unit coordinates 0..8)
 func P2(c ...int64) []exact.P {
 	var out []exact.P
@@ -271,6 +317,9 @@ func runC01(r *rt.Run) {
 			if len(seq) <= 4 {
 				c01Object(s, ident, H4, fH4, idxCfgs[0], w)
 				c01Object(s, ident, H4, fH4, idxCfgs[2], w)
+			}
+			if len(seq) >= 3 && len(seq) <= 4 {
+				c01Parsed(&exact.Shape{Kind: exact.KPoly, Ext: lat.Close(cp)}, H4, fH4, w)
 			}
 		}
 		if len(seq) <= depthLine {
@@ -438,7 +487,7 @@ func runC01(r *rt.Run) {
 		w.Flush()
 	}
 	// scaled / translated copies of the depth-4 ring tree (float exactness at 2^20)
-	xfs := []Xf{{Scale: 131072}, {Scale: 0.5, Tx: 1048570, Ty: -1048570}, {Scale: 1.0 / 1024, Tx: 0, Ty: 0}, {Scale: 1.0 / (1 << 30)}, farFineXf}
+	xfs := []Xf{{Scale: 131072}, {Scale: 0.5, Tx: 1048570, Ty: -1048570}, {Scale: 1.0 / 1024, Tx: 0, Ty: 0}, {Scale: 1.0 / (1 << 30)}, farFineXf, {Scale: 0x1p-301}}
 	for _, t := range xfs {
 		t := t
 		fH := t.pts(H4)
@@ -449,7 +498,7 @@ func runC01(r *rt.Run) {
 			})
 		})
 	}
-	r.Bounds["transforms"] = []string{ident.String(), xfs[0].String(), xfs[1].String(), xfs[2].String(), xfs[3].String(), xfs[4].String()}
+	r.Bounds["transforms"] = []string{ident.String(), xfs[0].String(), xfs[1].String(), xfs[2].String(), xfs[3].String(), xfs[4].String(), xfs[5].String()}
 
 	// oracle self-check: parity == winding on simple rings (cheap, every run)
 	rings := lat.SimpleRings(lat.Lattice(3, -1), 5)
@@ -513,8 +562,17 @@ func evalC01(c *rt.Case) (bool, string, string, error) {
 		return ct != want || it != want, fmt.Sprint(want), fmt.Sprintf("contains=%v intersects=%v", ct, it), nil
 	}
 	var oi int
-	fmt.Sscanf(c.Op, "object%d", &oi)
-	objs := objectsOf(es, t, cfg)
+	var objs []geojson.Object
+	if strings.HasPrefix(c.Op, "parsed") {
+		if es.Kind != exact.KPoly || len(es.Ext) < 4 || es.Ext[0] != es.Ext[len(es.Ext)-1] {
+			return false, "", "", fmt.Errorf("malformed case")
+		}
+		fmt.Sscanf(c.Op, "parsed%d", &oi)
+		objs = parsedAllowRects(es)
+	} else {
+		fmt.Sscanf(c.Op, "object%d", &oi)
+		objs = objectsOf(es, t, cfg)
+	}
 	if oi >= len(objs) {
 		return false, "", "", fmt.Errorf("bad object index")
 	}
